@@ -2,6 +2,7 @@
 //! one case per line on stdin and prints exactly one canonical result line per case on stdout.
 use std::io::{BufRead, Write};
 
+mod bits;
 mod codec;
 mod dictb;
 mod entropy;
@@ -31,6 +32,7 @@ fn main() {
         "entropy" => entropy::run_line,
         "matcher" => matcher::run_line,
         "dictb" => dictb::run_line,
+        "bits" => bits::run_line,
         _ => {
             eprintln!("usage: zh <pure> < cases");
             std::process::exit(2);
